@@ -1,3 +1,362 @@
+(** C06 -- shape ids, slide ids, relationship ids and part names are unique and stable.
+    Statements over model/Ids.v; proofs in proofs/Ids_proofs.v. *)
+From Coq Require Import Permutation Sorted.
 From V.lib Require Import Prelude Wire.
 From V.model Require Import PackUri Ids.
-From V.proofs Require Import Ids_proofs.
+From V.proofs Require Import Prelude_proofs PackUri_proofs Ids_proofs.
+Local Open Scope Z_scope.
+
+(* ---------------------------------------------------------------- relationship ids *)
+
+(** For EVERY list of keys (canonical or not: rId007, RID3, anything; duplicates too) the
+    downward search returns a candidate, the candidate is not a key, it is rIdK for the
+    largest K <= len+1 that is free -- so the final raise of _next_rId is unreachable. *)
+Theorem C06_rid_fresh : forall keys : list str,
+  exists r, next_rId keys = Ok r /\ ~ In r keys /\
+    exists k, (1 <= k <= N.of_nat (S (length keys)))%N /\ r = rId_name k /\
+              forall j, (k < j <= N.of_nat (S (length keys)))%N -> In (rId_name j) keys.
+Proof. exact rid_fresh. Qed.
+Print Assumptions C06_rid_fresh.
+
+(** over the Id attributes of a .rels file as loaded (later duplicates overwrite) *)
+Theorem C06_rid_fresh_xml : forall xml_ids : list str,
+  NoDup (load_keys xml_ids) /\
+  exists r, next_rId (load_keys xml_ids) = Ok r /\ ~ In r xml_ids.
+Proof. exact rid_fresh_xml. Qed.
+Print Assumptions C06_rid_fresh_xml.
+
+(** One relate_to / drop_rel step from any consistent collection (keys distinct, every
+    r:id reference is a key): consistency is kept; a new relationship gets an rId that is
+    neither a key nor referenced in the part (not reassigned while in use); drop_rel
+    removes an entry only with its last reference and leaves all others as they were. *)
+Theorem C06_rid_step : forall st op, rel_inv st ->
+  rel_inv (fst (rstep st op)) /\
+  match op with
+  | Relate t =>
+      exists k, snd (rstep st op) = Ok k /\ refs (fst (rstep st op)) = refs st ++ [k] /\
+        ((In (k, t) (rels st) /\ rels (fst (rstep st op)) = rels st) \/
+         (~ In k (rkeys st) /\ ~ In k (refs st) /\ rels (fst (rstep st op)) = rels st ++ [(k, t)]))
+  | DropRef i =>
+      forall k t, In (k, t) (rels st) ->
+        In (k, t) (rels (fst (rstep st op))) \/
+        (nth_error (refs st) i = Some k /\ ~ In k (refs (fst (rstep st op))))
+  end.
+Proof. exact rid_step. Qed.
+Print Assumptions C06_rid_step.
+
+(** ... hence after any history of such steps *)
+Theorem C06_rid_history : forall ops st, rel_inv st -> rel_inv (fst (rrun st ops)).
+Proof. exact rid_history. Qed.
+Print Assumptions C06_rid_history.
+
+(* ---------------------------------------------------------------- part names *)
+
+(** next_partname: fresh among ALL part names of the package, of the form tmpl % k with
+    k >= 1; the final raise is unreachable; it fails only when PackURI refuses a template
+    that does not start with a slash. *)
+Theorem C06_partname_fresh : forall pre post names,
+  match next_partname pre post names with
+  | Ok r => ~ In r names /\ exists k, (1 <= k)%N /\ r = tmpl_apply pre post k
+  | Err e => (e = ValueErr \/ e = IndexErr) /\ forall r, pre <> c_slash :: r
+  end.
+Proof. exact partname_fresh. Qed.
+Print Assumptions C06_partname_fresh.
+
+Theorem C06_image_idx : forall names,
+  (1 <= next_image_idx names /\ ~ In (next_image_idx names) (image_idxs names)) /\
+  (NoDup (image_idxs names) -> (forall x, In x (image_idxs names) -> 1 <= x) ->
+   forall k, 1 <= k < next_image_idx names -> In k (image_idxs names)).
+Proof. exact image_idx_both. Qed.
+Print Assumptions C06_image_idx.
+
+Theorem C06_image_name_fresh : forall ext names r,
+  no_dot ext = true -> forallb not_slash ext = true ->
+  next_image_partname ext names = Ok r -> ~ In r names.
+Proof. exact image_name_fresh. Qed.
+Print Assumptions C06_image_name_fresh.
+
+(** next_media_partname: index fresh; TypeError exactly when a part under
+    /ppt/media/media... has no numeric index (there is no None filter in the code) *)
+Theorem C06_media_idx : forall names,
+  match next_media_idx names with
+  | Ok i => 1 <= i /\
+            ~ In i (map Z.of_N (opts_some (map idx (filter (starts_with s_med_prefix) names))))
+  | Err e => e = TypeErr /\ exists n, In n names /\ starts_with s_med_prefix n = true /\ idx n = None
+  end.
+Proof. exact media_idx_spec. Qed.
+Print Assumptions C06_media_idx.
+
+Theorem C06_media_name_fresh : forall ext names r,
+  no_dot ext = true -> forallb not_slash ext = true ->
+  next_media_partname ext names = Ok r -> ~ In r names.
+Proof. exact media_name_fresh. Qed.
+Print Assumptions C06_media_name_fresh.
+
+(* ---------------------------------------------------------------- shape ids *)
+
+(** max+1 allocator on ANY population of @id strings: whenever it returns, the id is
+    positive, greater than every numeric id present, and its decimal text is not among
+    the existing attribute values. *)
+Theorem C06_shape_max_fresh : forall ids r, next_shape_id_max ids = Ok r ->
+  0 < r /\ (forall v, In v (num_ids ids) -> v < r) /\ ~ In r (num_ids ids) /\ ~ In (show_Z r) ids.
+Proof. exact shape_max_fresh. Qed.
+Print Assumptions C06_shape_max_fresh.
+
+(** first-gap allocator: never falls off its loop; least positive integer not in use *)
+Theorem C06_shape_gap_fresh : forall ids,
+  next_shape_id_gap ids <> Err TypeErr /\
+  forall r, next_shape_id_gap ids = Ok r ->
+    1 <= r /\ ~ In r (num_ids ids) /\ (forall k, 1 <= k < r -> In k (num_ids ids)) /\
+    ~ In (show_Z r) ids.
+Proof. exact shape_gap_fresh. Qed.
+Print Assumptions C06_shape_gap_fresh.
+
+(** The scan raises (always ValueError) exactly when some @id passes str.isdigit and is
+    refused by int ... *)
+Theorem C06_shape_alloc_raises_iff : forall ids,
+  (exists e, next_shape_id_max ids = Err e) <->
+  exists s, In s ids /\ py_isdigit s = true /\ py_int s = Err ValueErr.
+Proof. exact shape_alloc_raises_iff. Qed.
+Print Assumptions C06_shape_alloc_raises_iff.
+
+(** ... which happens exactly for a digit-like character that is not a decimal digit
+    (superscripts, circled digits, ...) or more than 4300 digits. *)
+Theorem C06_isdigit_int_fails_iff : forall s, py_isdigit s = true ->
+  (py_int s = Err ValueErr <->
+   (forallb is_dec s = false \/ (max_str_digits < N.of_nat (length s))%N)).
+Proof. exact isdigit_int_fails_iff. Qed.
+Print Assumptions C06_isdigit_int_fails_iff.
+
+(** FINDING (refuted totality): one pre-existing @id consisting of SUPERSCRIPT TWO makes
+    every add_* on that slide raise ValueError. *)
+Theorem C06_shape_nondecimal_crash :
+  next_shape_id_max [[49%N]; [178%N]] = Err ValueErr /\
+  next_shape_id_gap [[49%N]; [178%N]] = Err ValueErr.
+Proof. exact shape_nondecimal_crash. Qed.
+Print Assumptions C06_shape_nondecimal_crash.
+
+(** Any history of additions WITHOUT turbo (any mix of the two allocators, through any
+    number of proxies, connectors referring to shapes), from any population whose numeric
+    shape ids are distinct: they stay distinct, and both populations only grow at the end
+    (no existing id is rewritten). *)
+Theorem C06_shape_history : forall ops st,
+  shape_inv st -> forallb (fun o => negb (turbo_on o)) ops = true ->
+  shape_inv (fst (run_ops st ops)) /\
+  (exists n1, shape_ids (fst (run_ops st ops)) = shape_ids st ++ n1) /\
+  (exists n2, other_ids (fst (run_ops st ops)) = other_ids st ++ n2).
+Proof. exact shape_history. Qed.
+Print Assumptions C06_shape_history.
+
+(** each single addition from a state of such a history *)
+Theorem C06_shape_step : forall st op, shape_inv st -> turbo_on op = false ->
+  shape_inv (fst (step st op)) /\
+  (forall n, snd (step st op) = Ok n -> is_add op = true ->
+     0 < n /\ ~ In n (num_ids (all_ids st)) /\ ~ In (show_Z n) (all_ids st) /\
+     shape_ids (fst (step st op)) = shape_ids st ++ [show_Z n]).
+Proof. exact step_inv. Qed.
+Print Assumptions C06_shape_step.
+
+(** stability holds with or without turbo *)
+Theorem C06_shape_stable : forall ops st,
+  (exists n1, shape_ids (fst (run_ops st ops)) = shape_ids st ++ n1) /\
+  (exists n2, other_ids (fst (run_ops st ops)) = other_ids st ++ n2).
+Proof. exact shape_stable. Qed.
+Print Assumptions C06_shape_stable.
+
+(** FINDING: with turbo_add_enabled, add_group_shape then add_shape give the same id. *)
+Theorem C06_turbo_refuted :
+  exists ops, shape_inv fresh_slide /\
+    snd (run_ops fresh_slide ops) = [Ok 1; Ok 2; Ok 2] /\
+    ~ NoDup (num_ids (shape_ids (fst (run_ops fresh_slide ops)))).
+Proof. exact turbo_refuted. Qed.
+Print Assumptions C06_turbo_refuted.
+
+(** What turbo mode does guarantee: enabled on the only proxy of a consistent part and
+    followed only by max-allocator additions through that proxy, ids stay distinct and
+    no addition fails. *)
+Theorem C06_turbo_single_proxy_safe : forall k st m,
+  shape_inv st -> caches st = [None] -> max_shape_id (all_ids st) = Ok m ->
+  NoDup (num_ids (shape_ids (fst (run_ops st (SetTurbo 0 true :: repeat (AddMax 0) k))))) /\
+  Forall (fun o => exists n, o = Ok n) (snd (run_ops st (SetTurbo 0 true :: repeat (AddMax 0) k))).
+Proof. exact turbo_single_proxy_safe. Qed.
+Print Assumptions C06_turbo_single_proxy_safe.
+
+Theorem C06_ctn_fresh : forall ids r, next_cTn_id ids = Ok r ->
+  exists u, mapM py_int ids = Ok u /\ u <> [] /\ forall v, In v u -> v < r.
+Proof. exact ctn_fresh. Qed.
+Print Assumptions C06_ctn_fresh.
+
+(* ---------------------------------------------------------------- slide ids *)
+
+(** Distinct ids, all in 256..2147483647: the new id is in range and fresh; the bare
+    next(...) raises StopIteration only when every one of the 2147483392 valid ids is
+    in use. *)
+Theorem C06_slide_id : forall used, NoDup used -> (forall i, In i used -> valid_id i) ->
+  match next_slide_id_Z used with
+  | Ok r => valid_id r /\ ~ In r used
+  | Err e => e = StopIter /\ (forall k, valid_id k -> In k used)
+  end.
+Proof. exact slide_id_Z. Qed.
+Print Assumptions C06_slide_id.
+
+(** Arbitrary integers present (also out of range), in-range ones distinct: an answer is
+    in range and fresh, max+1 below the bound; StopIteration exactly when the maximum is
+    at or above the bound and the in-range ids are 256,257,... without a gap. *)
+Theorem C06_slide_id_gen : forall used, NoDup (valid_used used) ->
+  match next_slide_id_Z used with
+  | Ok r => valid_id r /\ ~ In r used /\
+            (max_from (MIN_SLIDE_ID - 1) used < MAX_SLIDE_ID -> r = max_from (MIN_SLIDE_ID - 1) used + 1)
+  | Err e => e = StopIter /\ MAX_SLIDE_ID <= max_from (MIN_SLIDE_ID - 1) used /\
+             valid_used used <> [] /\
+             sortZ (valid_used used) = zseq MIN_SLIDE_ID (length (valid_used used))
+  end.
+Proof. exact slide_id_Z_gen. Qed.
+Print Assumptions C06_slide_id_gen.
+
+(** reachable with one id above the bound (invalid per the schema): ids 256 and 2147483648 *)
+Theorem C06_slide_id_oob_stop : next_slide_id_Z [256; 2147483648] = Err StopIter.
+Proof. exact slide_id_oob_stop. Qed.
+Print Assumptions C06_slide_id_oob_stop.
+
+(** with duplicate pre-existing ids the fall-back can hand out a used id *)
+Theorem C06_slide_id_dup_refuted :
+  exists used r, (forall i, In i used -> valid_id i) /\ next_slide_id_Z used = Ok r /\ In r used.
+Proof. exact slide_id_dup_refuted. Qed.
+Print Assumptions C06_slide_id_dup_refuted.
+
+(** the only failures of the allocator over the attribute strings: ValueError for a value
+    int refuses, StopIteration from the fall-back *)
+Theorem C06_slide_id_errors : forall ids e, next_slide_id ids = Err e ->
+  (e = ValueErr /\ exists s, In s ids /\ py_int s = Err ValueErr) \/
+  (e = StopIter /\ exists vals, mapM py_int ids = Ok vals /\ next_slide_id_Z vals = Err StopIter).
+Proof. exact slide_id_errors. Qed.
+Print Assumptions C06_slide_id_errors.
+
+(** any number of add_slide on a good id list (attribute strings): existing entries are
+    untouched, the list stays good, every outcome is an in-range id or StopIteration *)
+Theorem C06_slide_history : forall n ids, slides_good ids ->
+  slides_good (fst (add_slides n ids)) /\
+  (exists new, fst (add_slides n ids) = ids ++ new) /\
+  Forall (fun o => match o with Ok r => valid_id r | Err e => e = StopIter end)
+         (snd (add_slides n ids)).
+Proof. exact slide_history. Qed.
+Print Assumptions C06_slide_history.
+
+(* ---------------------------------------------------------------- rename_slide_parts *)
+
+Theorem C06_rename : forall prels rIds targets names,
+  resolves prels rIds targets -> NoDup targets -> (forall p, In p targets -> (p < length names)%nat) ->
+  exists names', rename_slide_parts prels rIds names = Ok names' /\
+    length names' = length names /\
+    (forall j p, nth_error targets j = Some p ->
+                 nth_error names' p = Some (slide_name (N.of_nat j + 1)%N)) /\
+    (forall q, ~ In q targets -> nth_error names' q = nth_error names q) /\
+    (forall j1 j2 p1 p2 s, nth_error targets j1 = Some p1 -> nth_error targets j2 = Some p2 ->
+        nth_error names' p1 = Some s -> nth_error names' p2 = Some s -> j1 = j2).
+Proof. exact rename_listed. Qed.
+Print Assumptions C06_rename.
+
+Theorem C06_rename_collision_iff : forall prels rIds targets names names',
+  resolves prels rIds targets -> NoDup targets -> (forall p, In p targets -> (p < length names)%nat) ->
+  rename_slide_parts prels rIds names = Ok names' ->
+  ((exists p q s, p <> q /\ nth_error names' p = Some s /\ nth_error names' q = Some s) <->
+   ((exists p q s, p <> q /\ ~ In p targets /\ ~ In q targets /\
+                   nth_error names p = Some s /\ nth_error names q = Some s) \/
+    (exists q j, ~ In q targets /\ (j < length targets)%nat /\
+                 nth_error names q = Some (slide_name (N.of_nat j + 1)%N)))).
+Proof. exact rename_collision_iff. Qed.
+Print Assumptions C06_rename_collision_iff.
+
+Theorem C06_next_slide_partname_collision : forall prels rIds targets names names' q,
+  resolves prels rIds targets -> NoDup targets -> (forall p, In p targets -> (p < length names)%nat) ->
+  rename_slide_parts prels rIds names = Ok names' ->
+  (nth_error names' q = Some (next_slide_partname (length rIds)) <->
+   ~ In q targets /\ nth_error names q = Some (next_slide_partname (length rIds))).
+Proof. exact next_slide_partname_collision. Qed.
+Print Assumptions C06_next_slide_partname_collision.
+
+(** FINDING: a slide part related to the presentation but not listed in p:sldIdLst makes
+    the next slide name collide (all names distinct beforehand). *)
+Theorem C06_slide_partname_unlisted_refuted :
+  exists prels rIds names names',
+    NoDup names /\ rename_slide_parts prels rIds names = Ok names' /\
+    In (next_slide_partname (length rIds)) names'.
+Proof. exact slide_partname_unlisted_refuted. Qed.
+Print Assumptions C06_slide_partname_unlisted_refuted.
+
+Theorem C06_rename_keyerr : forall prels rIds names,
+  (exists r, In r rIds /\ lookup_rel r prels = None) ->
+  rename_slide_parts prels rIds names = Err KeyErr.
+Proof. exact rename_keyerr. Qed.
+Print Assumptions C06_rename_keyerr.
+
+(* ---------------------------------------------------------------- non-vacuity *)
+
+(** a population with a gap, a 2^31 id, a non-numeric id and an Arabic-Indic digit *)
+Definition ex_ids : list str :=
+  [[49]; [55]; [120; 55]; [50; 49; 52; 55; 52; 56; 51; 54; 52; 56]; [1635]]%N.
+Example C06_ex_shape_max : next_shape_id_max ex_ids = Ok 2147483649.
+Proof. vm_compute. reflexivity. Qed.
+Example C06_ex_shape_gap : next_shape_id_gap ex_ids = Ok 2.
+Proof. vm_compute. reflexivity. Qed.
+Example C06_ex_num_ids : num_ids ex_ids = [1; 7; 2147483648; 3].
+Proof. vm_compute. reflexivity. Qed.
+
+Definition ex_state : sstate := mkS [[49]; [55]; [50]]%N [[120; 55]]%N [None].
+Example C06_ex_shape_inv : shape_inv ex_state.
+Proof.
+  split; [repeat constructor|]. vm_compute.
+  repeat constructor; simpl; intuition discriminate.
+Qed.
+Example C06_ex_history :
+  snd (run_ops ex_state [AddMax 0; AddGap; NewHandle; AddMax 1; Connect 1; AddGap])
+  = [Ok 8; Ok 3; Ok 0; Ok 9; Ok 7; Ok 4].
+Proof. vm_compute. reflexivity. Qed.
+
+Example C06_ex_turbo_safe :
+  snd (run_ops ex_state (SetTurbo 0 true :: repeat (AddMax 0) 3)) = [Ok 7; Ok 8; Ok 9; Ok 10].
+Proof. vm_compute. reflexivity. Qed.
+
+Example C06_ex_slide_upper : next_slide_id_Z [256; 2147483647; 258] = Ok 257.
+Proof. vm_compute. reflexivity. Qed.
+Example C06_ex_slide_good : slides_good [[50; 53; 54]; [50; 49; 52; 55; 52; 56; 51; 54; 52; 55]]%N.
+Proof.
+  exists [256; 2147483647]. split; [vm_compute; reflexivity|]. split.
+  - repeat constructor; simpl; intuition discriminate.
+  - intros i [<-|[<-|[]]]; unfold valid_id, MIN_SLIDE_ID, MAX_SLIDE_ID; lia.
+Qed.
+
+(** non-canonical keys do not disturb the search: rId007 and RID3 are just other strings *)
+Example C06_ex_rid :
+  next_rId [[114; 73; 100; 49]; [114; 73; 100; 48; 48; 55]; [82; 73; 68; 51]; [114; 73; 100; 52]]%N
+  = Ok (rId_name 5).
+Proof. vm_compute. reflexivity. Qed.
+Example C06_ex_rel_inv : rel_inv (mkR [(rId_name 1, [97%N]); (rId_name 3, [98%N])] [rId_name 3; rId_name 3]).
+Proof.
+  split.
+  - repeat constructor; simpl; intuition discriminate.
+  - intros x [<-|[<-|[]]]; simpl; auto.
+Qed.
+Example C06_ex_rel_history :
+  snd (rrun (mkR [(rId_name 1, [97%N]); (rId_name 3, [98%N])] [rId_name 3; rId_name 3])
+            [Relate [99%N]; DropRef 0; DropRef 0; Relate [100%N]])
+  = [Ok (rId_name 2); Ok (rId_name 3); Ok (rId_name 3); Ok (rId_name 3)].
+Proof. vm_compute. reflexivity. Qed.
+
+Example C06_ex_partname :
+  next_partname s_slide_pre s_xml_post [slide_name 1; slide_name 3] = Ok (slide_name 2).
+Proof. vm_compute. reflexivity. Qed.
+Example C06_ex_image :
+  next_image_partname [112; 110; 103]%N
+    [s_img_prefix ++ [49; 46; 112; 110; 103]; s_img_prefix ++ [51; 46; 106; 112; 103]]%N
+  = Ok (s_img_prefix ++ [50; 46; 112; 110; 103])%N.
+Proof. vm_compute. reflexivity. Qed.
+
+Example C06_ex_rename :
+  rename_slide_parts [(rId_name 2, 1%nat); (rId_name 5, O)] [rId_name 2; rId_name 5]
+                     [slide_name 7; slide_name 9; slide_name 1 ++ [120%N]]
+  = Ok [slide_name 2; slide_name 1; slide_name 1 ++ [120%N]].
+Proof. vm_compute. reflexivity. Qed.
+Example C06_ex_resolves :
+  resolves [(rId_name 2, 1%nat); (rId_name 5, O)] [rId_name 2; rId_name 5] [1%nat; O].
+Proof. repeat constructor. Qed.
